@@ -943,3 +943,33 @@ M('schur-result-not-scaled-back', 'C09', 'input-normalised-to-unit-magnitude',
 # ----------------------------------------------------------------------------- F17
 M('doubleshift-applyYQ-stride-is-row-count', 'C13,C08', 'C13=pointer-kernel-contracts,C08=apply-methods-walk-the-argument-storage',
   [('LinAlg/DoubleShiftQR.h', "        const Index stride = Y.outerStride();", "        const Index stride = Y.rows();")], 'reverts fix F17')
+
+# ----------------------------------------------------------------------------- F18
+M('davidson-initial-space-used-as-given', 'C15', 'search-space-basis-orthonormal',
+  [('LinAlg/SearchSpace.h', "        twice_is_enough_orthogonalisation(m_basis_vectors);\n", "")], 'reverts fix F18')
+M('davidson-extend-without-orthogonalisation', 'C15', 'search-space-basis-orthonormal',
+  [('LinAlg/SearchSpace.h', "        twice_is_enough_orthogonalisation(m_basis_vectors, left_cols_to_skip);\n", "")], 'corrections appended to the basis as they are')
+
+# ----------------------------------------------------------------------------- F19
+M('davidson-max-size-setter-unclamped', 'C15', 'rayleigh-ritz-basis-fits-the-matrix',
+  [('JDSymEigsBase.h', "        m_max_search_space_size = max_search_space_size;\n        // Apply the same limits as the constructor: the search space\n        // cannot have more vectors than the dimension of the matrix\n        initialize();\n", "        m_max_search_space_size = max_search_space_size;\n")], 'reverts fix F19')
+N('davidson-max-size-setter-clamps-inline', 'C15',
+  [('JDSymEigsBase.h', "        m_max_search_space_size = max_search_space_size;\n        // Apply the same limits as the constructor: the search space\n        // cannot have more vectors than the dimension of the matrix\n        initialize();\n", "        m_max_search_space_size = (std::min)(max_search_space_size, Index(m_matrix_operator.cols()));\n")], 'clamped in place')
+
+# ----------------------------------------------------------------------------- F20
+M('arnoldi-init-divides-by-zero-norm', 'C13', 'division-by-norm-guarded',
+  [('LinAlg/Arnoldi.h', "        if (vnorm < m_near_0)\n            v.noalias() = v0 / v0norm;\n        else\n            v /= vnorm;\n", "        v /= vnorm;\n")], 'reverts fix F20')
+
+# ----------------------------------------------------------------------------- F21
+M('svd-singular-values-sqrt-unguarded', 'C16', 'clamps-and-fixed-rule',
+  [('contrib/PartialSVDSolver.h', "m_eigs->eigenvalues().cwiseMax(Scalar(0)).cwiseSqrt();", "m_eigs->eigenvalues().cwiseSqrt();")], 'reverts fix F21')
+
+# ----------------------------------------------------------------------------- F22
+M('arnoldi-init-keeps-old-dimension-until-the-end', 'C12', 'rejected-init-leaves-no-half-built-state',
+  [('LinAlg/Arnoldi.h', "        m_k = 0;\n\n        m_fac_V.resize(m_n, m_m);", "        m_fac_V.resize(m_n, m_m);")], 'reverts fix F22')
+
+# ----------------------------------------------------------------------------- F23
+M('densesym-product-accepts-non-square', 'C12', 'square-matrix-guard',
+  [('MatOp/DenseSymMatProd.h', '        if (mat.rows() != mat.cols())\n            throw std::invalid_argument("DenseSymMatProd: matrix must be square");\n', '')], 'reverts fix F23 (wrapper)')
+M('gen-base-accepts-rectangular-operator', 'C12', 'square-matrix-guard',
+  [('GenEigsBase.h', '        if (op.rows() != op.cols())\n            throw std::invalid_argument("the matrix operation must represent a square matrix");\n\n', '')], 'reverts fix F23 (solver base)')
